@@ -110,7 +110,7 @@ def case_strategy(draw):
         validator["exc"] = draw(st.sampled_from(VALIDATOR_EXC))
         validator["msg"] = draw(st.sampled_from(["denied!", "", "x" * 50, "ünï"]))
     pipe = draw(st.lists(pipeline_item, max_size=3))
-    return {"first": first, "validator": validator, "pipeline": pipe}
+    return {"first": first, "validator": validator, "pipeline": pipe, "keep_open": draw(st.integers(0, 2)) == 0}
 
 
 # ------------------------------------------------------------------------------------------------
@@ -287,12 +287,33 @@ def run_case(case, variant=None, keep=False):
         pipe = b""
         expect_replies = []
     del EXEC[:]
-    validated_before = len(S.daemon.v_validated)
+    validated_before = validated_after = len(S.daemon.v_validated)
     peer = live.RawPeer(S.address())
+    # a refused peer that keeps its socket OPEN (sends nothing more, does not hang up): the daemon must close the connection and
+    # let go of it on its own.  Only when the first message is complete as sent (otherwise the daemon rightly waits for the rest).
+    lingering = bool(case.get("keep_open")) and not accepted and complete and first["mal"] not in ("dlen+", "alen+", "oversize")
     try:
         peer.send(raw + pipe)
-        peer.half_close()
+        if not lingering:
+            peer.half_close()
         msgs, ended = peer.read_until_closed()
+        validated_after = len(S.daemon.v_validated)      # (taken before the probe connection below consults the validator itself)
+        if lingering:
+            if ended[0] not in ("eof", "reset"):
+                viol("not-closed", "refused peer that keeps its socket open: the daemon did not close the connection (%r)" % (ended,))
+            elif not live.wait_for(lambda: S.busy_workers() == L["baseline"], 10):
+                viol("refused-connection-not-released", "the peer saw the connection closed, but the daemon still holds it while the peer keeps its "
+                     "socket open (busy=%d baseline=%d)" % (S.busy_workers(), L["baseline"]))
+            elif variant != "thread-poolfull":
+                # ... and the daemon is free to serve others meanwhile
+                S.daemon.v_validator = None         # (the probe is an ordinary client: accepted)
+                probe = live.RawPeer(S.address(), timeout=10.0)
+                try:
+                    pm = probe.handshake("t")
+                    if not (isinstance(pm, dict) and pm["type"] == wire.CONNECTOK):
+                        viol("daemon-unresponsive-after-refusal", "while a refused peer keeps its socket open a new client's handshake got %r" % (pm,))
+                finally:
+                    probe.close()
     finally:
         peer.close()
     # the server must have let go of the connection
@@ -326,7 +347,7 @@ def run_case(case, variant=None, keep=False):
                 except Exception as x:
                     reason = x
                 if not isinstance(reason, str) or not reason:
-                    consulted = len(S.daemon.v_validated) > validated_before
+                    consulted = validated_after > validated_before
                     if not (val["mode"] == "raise" and val.get("msg") == "" and consulted):     # the validator's own (empty) text is the reason
                         viol("connectfail-without-reason", "CONNECTFAIL payload is %r" % (reason,))
                 if len(msgs) > 1:
@@ -362,7 +383,7 @@ def run_case(case, variant=None, keep=False):
                 viol("pipelined-reply", "%d pipelined requests, %d replies (%r)" % (len(expect_replies), len(msgs) - 1, ended))
             if executed != want_exec:
                 viol("pipelined-execution", "after an accepted handshake the pipelined requests must run in order: log %r, expected %r" % (executed, want_exec))
-    if len(S.daemon.v_validated) > validated_before and (first["kind"] != "connect" or variant == "thread-poolfull"):
+    if validated_after > validated_before and (first["kind"] != "connect" or variant == "thread-poolfull"):
         viol("validator-called-for-bad-message", "validator was consulted although the first message is no CONNECT / the pool is full")
     if not S.loop_alive():
         viol("loop-died", "request loop terminated")
@@ -397,6 +418,8 @@ def _labels(case):
         l.append("malformed:" + case["first"]["mal"])
     if not accepted and case["pipeline"]:
         l.append("must-fail+pipelined")
+    if case.get("keep_open") and not accepted and complete and case["first"]["mal"] not in ("dlen+", "alen+", "oversize"):
+        l.append("refused-peer-keeps-socket-open")
     return l
 
 
